@@ -140,7 +140,7 @@ fn linspace(a: f64, b: f64, n: usize) -> Vec<f64> {
 }
 
 fn spans(quick: bool) -> Vec<(f64, f64)> {
-    let mut v = vec![(0.0, 1.0), (1.0, 0.0), (-2.0, -1.5), (0.5, -0.75)];
+    let mut v = vec![(0.0, 1.0), (1.0, 0.0), (-2.0, -1.5), (0.5, -0.75), (-1.0, 0.026), (1.0, -0.013)];
     if !quick {
         v.extend([(0.0, 2.5), (3.0, 1.0), (10.0, 10.5), (0.0, 1e-9), (0.0, -1e-9), (1.0, 1.0 + 1e-11)]);
     }
@@ -444,6 +444,16 @@ fn fam_lowlevel(o: &mut Out, quick: bool, rng: &mut Rng) {
                     o.run(c);
                 }
             }
+            if *m == "RADAU" && si == 0 {
+                for k in 0..(if quick { 12 } else { 40 }) {
+                    let xe = 1.8 + 0.0125 * k as f64;
+                    let mut c = base(m, Problem::new("switch3", xe - 0.02), 0.0, xe);
+                    c.api = "low".into();
+                    c.jac = "user".into();
+                    c.tags = vec!["stiff_switch_before_xend".into()];
+                    o.run(c);
+                }
+            }
             if *m == "RK4" {
                 // the fixed step does not divide the interval: the last step is shortened
                 let mut c = base(m, Problem::new("sho", 0.0), *x0, *xend);
@@ -689,6 +699,26 @@ fn fam_symmetry(o: &mut Out, quick: bool, rng: &mut Rng) {
             o.pair_f("C13", "mirror_events", &a, &b, "fact: event lists mirror under time reflection (counts equal, times to 1e-9)", ok);
         }
     }
+    // a binding max_step must bind in both directions
+    for m in ADAPTIVE {
+        for (x0, xend) in [(0.0, 2.0), (2.0, 0.0)] {
+            let mut c = base(m, Problem::new("sho", 0.0), x0, xend);
+            c.rtol = vec![1e-2];
+            c.atol = vec![1e-2];
+            c.max_step = Some(0.05);
+            c.jac = "user".into();
+            c.tags = vec!["reference+max_step".into()];
+            let a = o.run(c.clone());
+            let mut v = c.clone();
+            v.problem.reflect = true;
+            v.x0 = -x0;
+            v.xend = -xend;
+            v.map = "reflect".into();
+            v.tags = vec!["reflect+max_step".into()];
+            let b = o.run(v);
+            o.pair("C13", "equal", &a, &b, "time reflection with a binding max_step");
+        }
+    }
     // a long, stability-limited explicit run (stiffness detection is reached) and its reflection
     for m in ["DOP853", "DOPRI5"] {
         let mut c = base(m, Problem::new("relax", 2.0e4), 0.0, if quick { 1.5 } else { 5.0 });
@@ -796,13 +826,13 @@ fn fam_symmetry(o: &mut Out, quick: bool, rng: &mut Rng) {
 // ----------------------------------------------------------------------------------------- storage
 /// C15: mass / Jacobian storage and the absence of a mass matrix do not change the trajectory.
 fn fam_storage(o: &mut Out, quick: bool, rng: &mut Rng) {
-    let probs = vec![Problem::new("cascade4", 8.0), Problem::new("vdp", 1000.0), Problem::new("chain4", 60.0), Problem::new("lin3", 0.0), Problem::new("robertson", 0.0), Problem::new("vdp", 10.0), Problem::new("decay", 3.0), Problem::new("lin2", 0.0)];
-    let ncase = if quick { 8 } else { 48 };
+    let probs = vec![Problem::new("cascade4", 8.0), Problem::new("vdpe", 1e-6), Problem::new("vdp", 1000.0), Problem::new("chain4", 60.0), Problem::new("lin3", 0.0), Problem::new("robertson", 0.0), Problem::new("vdp", 10.0), Problem::new("decay", 3.0), Problem::new("lin2", 0.0)];
+    let ncase = if quick { 9 } else { 54 };
     for ci in 0..ncase {
         let p = probs[ci % probs.len()].clone();
         let mut p = p;
         if ci >= probs.len() && p.base_dim() <= 2 { p.copies = 1 + rng.below(3); }
-        let xend = if p.kind == "robertson" { 40.0 } else if p.kind == "chain4" { 6.0 } else if p.kind == "cascade4" { 30.0 } else if p.kind == "vdp" && p.p > 100.0 { 3.0 } else { 1.0 };
+        let xend = if p.kind == "robertson" { 40.0 } else if p.kind == "chain4" { 6.0 } else if p.kind == "cascade4" { 30.0 } else if p.kind == "vdp" && p.p > 100.0 { 3.0 } else if p.kind == "vdpe" { 2.0 } else { 1.0 };
         for m in ["RADAU", "BDF"] {
             let mut c = base(m, p.clone(), 0.0, xend);
             c.jac = "user".into();
